@@ -27,6 +27,8 @@ type violation struct {
 	Count  int    `json:"count"`
 	Replay string `json:"replay"`
 	Known  bool   `json:"known"`
+
+	printed bool
 }
 
 // Reporter collects what one run observed.
@@ -255,6 +257,15 @@ func (r *Reporter) Violation(key, what string, replay any) {
 	_ = os.WriteFile(v.Replay, b, 0o644)
 	r.viols[key] = v
 	r.violOrder = append(r.violOrder, key)
+	// print at once: if the workload later hangs or crashes the finding is not lost
+	if v.Known {
+		fmt.Printf("KNOWN-FINDING: property=%s %s (key=%s)\n", r.ID, r.known[key], key)
+	} else {
+		fmt.Printf("VIOLATION property=%s replay=%s\n", r.ID, v.Replay)
+		fmt.Printf("  key=%s: %s\n", key, what)
+	}
+	v.printed = true
+	os.Stdout.Sync()
 }
 
 // Violations returns the number of distinct violation keys so far (known included).
@@ -364,9 +375,12 @@ func (r *Reporter) Write() int {
 		_ = os.Rename(tmp, r.EvidencePath)
 	}
 	for _, v := range vl {
-		if v.Known {
+		switch {
+		case v.printed:
+			fmt.Printf("  (key=%s seen %d times this run)\n", v.Key, v.Count)
+		case v.Known:
 			fmt.Printf("KNOWN-FINDING: property=%s %s (key=%s, seen %d times this run)\n", r.ID, r.known[v.Key], v.Key, v.Count)
-		} else {
+		default:
 			fmt.Printf("VIOLATION property=%s replay=%s\n", r.ID, v.Replay)
 			fmt.Printf("  key=%s count=%d: %s\n", v.Key, v.Count, v.What)
 		}
